@@ -81,7 +81,7 @@ let rec run_case (kind : string) (body : sexp list) : string * string =
       let polls = List.length (List.filter (fun l -> l = APoll) ls) in
       let no_unsub = not (List.mem AUnsub ls) in
       let spec =
-        if no_unsub && polls > int_of_nat (pendings script) && (k = AStream || k = AStreamResult)
+        if no_unsub && polls > int_of_nat (pendings script)
         then
           (* interleave the is_closed answers as the model gives them; compare deliveries only *)
           "DELIVERS " ^ show_trace (yields k script)
